@@ -348,8 +348,11 @@ class Run:
         open(outp, "w").close()
         jj = {k: v for k, v in job.items() if k not in ("restarts",)}
         errf = open(errp, "w")
+        env = worker_env(job["cfg"])
+        for k, v in (job.get("env") or {}).items():
+            env[k] = (v + ":" + env[k]) if (k == "LD_PRELOAD" and env.get(k)) else v
         proc = subprocess.Popen([sys.executable, "-m", "vlib.core", "--worker", json.dumps(jj), marker, outp],
-                                cwd=VERIF, env=worker_env(job["cfg"]), stdout=errf, stderr=errf)
+                                cwd=VERIF, env=env, stdout=errf, stderr=errf)
         errf.close()
         return {"proc": proc, "job": job, "marker": marker, "out": outp, "err": errp, "t0": time.time()}
 
@@ -556,7 +559,7 @@ class Run:
 
 
 def _jobkey(job):
-    return {k: job[k] for k in ("cfg", "unit", "params", "seed", "tier", "fill", "nolib") if k in job}
+    return {k: job[k] for k in ("cfg", "unit", "params", "seed", "tier", "fill", "nolib", "env") if k in job}
 
 
 def replay(prop, path):
